@@ -12,6 +12,7 @@ void  uk_assume(int c);
 void  uk_assert(int c, const char *msg);
 void  uk_cover(const char *label);                          /* reachability witness */
 void  uk_note(const char *label, long v);
+void  uk_note_text(const char *label, const void *p, long n, int elsize);  /* remember a text for counterexample reports */
 void *uk_malloc(size_t n);
 void  uk_free(void *p);
 long  uk_live(void);                                        /* live uk_malloc blocks */
